@@ -15,8 +15,8 @@ from . import run as runner
 from .run import Case
 
 VERIF = runner.VERIF
-EVIDENCE_DIR = os.path.join(VERIF, "evidence")
-REPLAY_DIR = os.path.join(VERIF, "replays")
+EVIDENCE_DIR = os.environ.get("VSDS_EVIDENCE_DIR") or os.path.join(VERIF, "evidence")
+REPLAY_DIR = os.environ.get("VSDS_REPLAY_DIR") or os.path.join(VERIF, "replays")
 KNOWN_FILE = os.path.join(VERIF, "known_findings.json")
 
 
@@ -72,6 +72,15 @@ class Check:
         self.runs = 0
         self.discarded = Counter()
         self.assumptions: list[str] = []
+        # replay files of earlier runs of this check are stale: remove them
+        d = os.path.join(REPLAY_DIR, pid)
+        if tier != "probe" and os.path.isdir(d):
+            for f in os.listdir(d):
+                if f.endswith(".json"):
+                    try:
+                        os.unlink(os.path.join(d, f))
+                    except OSError:
+                        pass
 
     # ---- recording
     def note_run(self, rec: dict | None, mon: dict | None = None) -> None:
